@@ -139,11 +139,21 @@ Fixpoint src_now (dr b : nat) (before : list dstep) : option nat :=
   | _ :: r => src_now dr b r
   end.
 
+(* everything the configuration source dir/base - the file base.py or the package base/ - has said so far *)
 Fixpoint src_versions (dr b : nat) (before : list dstep) : list nat :=
   match before with
   | [] => []
   | DWrite d' b' p :: r => if same_file dr b d' b' then p :: src_versions dr b r else src_versions dr b r
+  | DWritePkg d' b' p :: r => if same_file dr b d' b' then p :: src_versions dr b r else src_versions dr b r
   | _ :: r => src_versions dr b r
+  end.
+
+(* what the package dir/base/ says now *)
+Fixpoint pkg_now (dr b : nat) (before : list dstep) : option nat :=
+  match before with
+  | [] => None
+  | DWritePkg d' b' p :: r => if same_file dr b d' b' then Some p else pkg_now dr b r
+  | _ :: r => pkg_now dr b r
   end.
 
 Definition olist {A} (o : option A) : list A := match o with Some x => [x] | None => [] end.
@@ -200,8 +210,9 @@ Fixpoint own_source_b (al : list (list nat)) (certs : list nat) : bool :=
   end.
 
 (* hypotheses of the theorems about files (inputs, not outputs).
-   files_present: every file an entity is built from exists at that moment;
-   no_reedit: no configuration file is written or removed once a file of that BASE NAME has been loaded *)
+   files_present: every FILE an entity is built from exists at that moment (strict theorems only);
+   no_reedit: no configuration file or package is written or removed once a file of that BASE NAME has been loaded;
+   bare_present: every file asked for by its BARE name (no directory given) exists at that moment *)
 Fixpoint base_loaded (b : nat) (before : list dstep) : bool :=
   match before with
   | [] => false
@@ -209,13 +220,22 @@ Fixpoint base_loaded (b : nat) (before : list dstep) : bool :=
   | _ :: r => base_loaded b r
   end.
 
+Definition present (o : option nat) : bool := match o with Some _ => true | None => false end.
+
 Fixpoint files_present_from (before : list dstep) (d : list dstep) : bool :=
   match d with
   | [] => true
   | DLoadFile dr b a s :: r =>
-      match src_now dr b before with Some _ => true | None => false end
-      && files_present_from (DLoadFile dr b a s :: before) r
+      present (src_now dr b before) && files_present_from (DLoadFile dr b a s :: before) r
   | s :: r => files_present_from (s :: before) r
+  end.
+
+Fixpoint bare_present_from (before : list dstep) (d : list dstep) : bool :=
+  match d with
+  | [] => true
+  | DLoadFile dr b a s :: r =>
+      (negb (is_bare s) || present (src_now dr b before)) && bare_present_from (DLoadFile dr b a s :: before) r
+  | s :: r => bare_present_from (s :: before) r
   end.
 
 Fixpoint no_reedit_from (before : list dstep) (d : list dstep) : bool :=
@@ -223,11 +243,13 @@ Fixpoint no_reedit_from (before : list dstep) (d : list dstep) : bool :=
   | [] => true
   | DWrite dr b p :: r => negb (base_loaded b before) && no_reedit_from (DWrite dr b p :: before) r
   | DUnlink dr b :: r => negb (base_loaded b before) && no_reedit_from (DUnlink dr b :: before) r
+  | DWritePkg dr b p :: r => negb (base_loaded b before) && no_reedit_from (DWritePkg dr b p :: before) r
   | s :: r => no_reedit_from (s :: before) r
   end.
 
 Definition files_present (d : list dstep) : bool := files_present_from [] d.
 Definition no_reedit (d : list dstep) : bool := no_reedit_from [] d.
+Definition bare_present (d : list dstep) : bool := bare_present_from [] d.
 
 Arguments keys {sigv}.
 Arguments gon {sigv}.
